@@ -186,6 +186,29 @@ class DependencyGraph:
             if not self.edges[waiter]:
                 del self.edges[waiter]
 
+    def remove_wait(self, waiter: str, resource: str) -> None:
+        """Waiter obtained the resource: it no longer waits for it."""
+        if waiter in self.edges:
+            self.edges[waiter] = [(b, r) for b, r in self.edges[waiter] if r != resource]
+            if not self.edges[waiter]:
+                del self.edges[waiter]
+
+    def remove_resource(self, resource: str) -> None:
+        """Resource became free: nobody is blocked by an owner of it any more."""
+        for waiter in list(self.edges.keys()):
+            self.remove_wait(waiter, resource)
+
+    def retarget(self, resource: str, old_blocking: str, new_blocking: str) -> None:
+        """Ownership moved (preemption): waiters now wait on the new owner."""
+        for waiter in list(self.edges.keys()):
+            self.edges[waiter] = [
+                ((new_blocking if (b == old_blocking and r == resource) else b), r)
+                for b, r in self.edges[waiter]
+                if not (waiter == new_blocking and r == resource)
+            ]
+            if not self.edges[waiter]:
+                del self.edges[waiter]
+
     def remove_all_for_agent(self, agent: str) -> None:
         """Remove all dependencies involving an agent."""
         # Remove as waiter
